@@ -3,5 +3,7 @@
 cd /verif
 if ! git -C /repo apply --check /verif/seeded/$1/patch.diff 2>/dev/null; then echo "$1: patch does not apply"; exit 2; fi
 git -C /repo apply /verif/seeded/$1/patch.diff
+cp evidence/$2.json /tmp/evidence_$2.keep 2>/dev/null     # evidence files must describe runs on the unchanged tree only
 ./check $2 --tier ${3:-quick} | grep -E "VIOLATION|KNOWN|tier=" | cut -c1-220 | tail -4
 git -C /repo checkout -- lapy
+cp /tmp/evidence_$2.keep evidence/$2.json 2>/dev/null; rm -f /tmp/evidence_$2.keep
